@@ -416,6 +416,7 @@ pub struct World {
     pub stats_multi_outstanding: bool,
     /// markers of calls that timed out before their request had reached the wire
     pub timed_out_unsent: BTreeSet<String>,
+    pub injected: bool,
 }
 
 fn call_name(c: &Call) -> String {
@@ -469,6 +470,7 @@ impl World {
             driver_polls: 0,
             stats_multi_outstanding: false,
             timed_out_unsent: BTreeSet::new(),
+            injected: false,
             scn,
         }
     }
@@ -544,6 +546,9 @@ impl World {
         }
         if io.write_waker.is_some() {
             out.push(Action::WriteReady);
+        }
+        if self.scn.raw_inject.is_some() && !self.injected && link_up {
+            out.push(Action::Inject);
         }
         drop(io);
         if self.ticks_left > 0 && self.clients.iter().any(|c| c.task.is_some()) {
@@ -650,6 +655,11 @@ impl World {
             }
             Action::WriteReady => {
                 self.io.lock().unwrap().wake_writer();
+            }
+            Action::Inject => {
+                self.injected = true;
+                let b = self.scn.raw_inject.clone().unwrap_or_default();
+                self.io.lock().unwrap().deliver(&b);
             }
             Action::DropAll => {
                 self.dropped_all = true;
@@ -1717,12 +1727,17 @@ impl World {
         }
         let _ = write!(
             s,
-            "S[{:?} {:?} {:?} {:?}]T{} t{} f{} {:?} da{} V{}",
+            "S[{:?} {:?} {:?} {:?}]T{} t{} f{} {:?} da{} V{} inj{}",
             self.server.bogus_left, self.server.last_answered_single, self.server.last_done_search, self.server.pages_served, self.now, self.ticks_left, self.faults_left, self.fault_done, self.dropped_all,
-            self.viol.len()
+            self.viol.len(),
+            self.injected
         );
         let _ = write!(s, "RT{:?}", self.routed);
         s
+    }
+
+    pub fn pending_clients(&self) -> Vec<usize> {
+        self.clients.iter().enumerate().filter(|(_, c)| c.task.is_some()).map(|(i, _)| i).collect()
     }
 
     pub fn logs(&self) -> Vec<Vec<Obs>> {
